@@ -3,7 +3,11 @@
 seeded/*/meta.json and seeded/MATRIX.json."""
 import json, os, re
 ROOT = os.path.dirname(os.path.dirname(os.path.abspath(__file__)))
-seeds = sorted(d for d in os.listdir(os.path.join(ROOT, "seeded")) if os.path.isdir(os.path.join(ROOT, "seeded", d)))
+import re as _re
+def _key(d):
+    m = _re.match(r"C(\d+)-(\d+)$", d)
+    return (int(m.group(1)), int(m.group(2)))
+seeds = sorted((d for d in os.listdir(os.path.join(ROOT, "seeded")) if _re.match(r"C\d+-\d+$", d) and os.path.isdir(os.path.join(ROOT, "seeded", d))), key=_key)
 mpath = os.path.join(ROOT, "seeded", "MATRIX.json")
 matrix = json.load(open(mpath)) if os.path.exists(mpath) else {}
 # TARGET.json: the registered quick command of the target property only, at full scale
